@@ -99,11 +99,20 @@ func generate(t *testing.T, run *hx.Run) {
 			if i >= 2 {
 				mc.wfee, mc.cfee = hx.Pick(rng, fees), hx.Pick(rng, fees)
 			}
+			if !mc.nd {
+				// Notary mode: the Alphabet is the chain's committee; sizes whose n/2+1 majority account differs from the
+				// 2n/3+1 Alphabet account (3, 5, 6, 7) and sizes where both coincide (1, 4)
+				mc.cn = []int{6, 5, 7, 3, 4, 1}[(i/2+run.Shard)%6]
+			}
 			w := newMain(t, run, mc)
 			w.wf = true
 			run.Case(encodeID("main", w.cfg.attrs(), caseID("gas")), w.caseAttrs()...)
 			g := &gasGen{w: w, rng: rng}
 			var sample []string
+			for _, grp := range g.majoritySigner(i + run.Shard) {
+				emitGroup(run, w, grp, nil)
+				run.Count("directed.majority-signer")
+			}
 			for _, grp := range g.candidateFees(i + run.Shard) {
 				emitGroup(run, w, grp, nil)
 				run.Count("directed.candidate-fee")
@@ -449,10 +458,19 @@ func (g *gasGen) alpha(method, rest string, cand bool) []string {
 				sig = "cmt"
 			}
 		}
-		if g.rng.IntN(10) == 0 {
-			sig = hx.Pick(g.rng, []string{"-", "S0", "A0", "cmt", "saddr"})
+		switch g.rng.IntN(10) {
+		case 0:
+			sig = hx.Pick(g.rng, []string{"-", "S0", "A0", "cmt", "saddr", "maj", "smaj", "maj,smaj"})
 			if sig == "saddr" && g.w.act.byTag["saddr"].signer == nil {
 				sig = "-"
+			}
+		case 1: // the n/2+1 majority account of the key set the method asks the 2n/3+1 account of, alone or next to a user
+			sig = "maj"
+			if cand {
+				sig = "smaj"
+			}
+			if g.rng.IntN(3) == 0 {
+				sig += "," + hx.Pick(g.rng, []string{"S0", "U1", "A0"})
 			}
 		}
 		return []string{fmt.Sprintf("op %s %s %s", sig, method, rest)}
@@ -502,6 +520,40 @@ func (g *gasGen) candidateFees(variant int) (groups [][]string) {
 		k := fmt.Sprintf("K%d", (i+variant)%nCands)
 		groups = append(groups, []string{fmt.Sprintf("op %s candadd #%s", k, k)}, []string{fmt.Sprintf("op %s candrm #%s", k, k)})
 	}
+	return
+}
+
+// majoritySigner: directed histories inside C19's quantifier ("sequences of deposit/withdraw/cheque/candidate
+// operations", "fee settings") for Notary mode. The contract is funded, then every Alphabet-gated operation is
+// requested under exactly the n/2+1 majority account of the key set whose 2n/3+1 account it asks for — the chain's
+// committee for cheque / setConfig / alphabetUpdate (`maj` vs `cmt`), the stored keys for a candidate removal (`smaj`
+// vs `saddr`) — alone and next to an unrelated user; then under the right account. For key sets of 3, 5, 6, 7 members
+// the majority account is no Alphabet approval: nothing may be paid or configured; for 1, 2, 4 members it is the same
+// account.
+func (g *gasGen) majoritySigner(variant int) (groups [][]string) {
+	if g.w.cfg.nd {
+		return nil
+	}
+	var ks []string
+	for i := 0; i < g.w.cfg.n; i++ {
+		ks = append(ks, fmt.Sprintf("#A%d", i))
+	}
+	one := func(l string) { groups = append(groups, []string{l}) }
+	id := func() string { gasID++; return fmt.Sprintf("%04x", gasID) }
+	user := []string{"S0", "U2", "A0"}[variant%3]
+	one("op U0 deposit @U0 100000 nil")
+	one("op K0 candadd #K0")
+	for _, sig := range []string{"maj", "maj," + user} {
+		one(fmt.Sprintf("op %s cheque %s @U1 %d bb", sig, id(), 50+variant%7))
+		one(fmt.Sprintf("op %s setcfg %s 6d 41", sig, id()))
+		one(fmt.Sprintf("op %s setcfg %s %s 09", sig, id(), hx.Hex([]byte("WithdrawFee"))))
+		one(fmt.Sprintf("op %s aupd %s %s", sig, id(), strings.Join(ks, ",")))
+	}
+	one("op smaj candrm #K0")
+	one(fmt.Sprintf("op smaj,%s candrm #K0", user))
+	one(fmt.Sprintf("op cmt cheque %s @U1 %d bb", id(), 60+variant%7))
+	one(fmt.Sprintf("op cmt setcfg %s 6d 42", id()))
+	one("op saddr candrm #K0")
 	return
 }
 
